@@ -174,7 +174,7 @@ impl Check for C09 {
         vec!["the inline/subtree classification used for the non-triviality rule is a size estimate from the model, not read from the file (C10's decoder checks the actual encoding)".into()]
     }
     fn plan(&self, tier: Tier) -> Plan {
-        Plan { cases: tier.pick(4000, 150_000), max_recs: 120, max_shrink_iters: 4000, workers: 16 }
+        Plan { cases: tier.pick(30_000, 800_000), max_recs: 120, max_shrink_iters: 4000, workers: 16 }
     }
     fn run(&self, tape: &Tape, want_sample: bool) -> Result<CaseOut, Failure> {
         let case = decode(tape);
